@@ -10,7 +10,7 @@ from typing import Any, Dict, List
 
 from ..effects import Analyzer
 from ..interp import Interp, Obj, PyFunc, Raised, Unsupported, PTS
-from ..model import AnalysisError, Model, src, walk_no_nested
+from ..model import staged, AnalysisError, Model, src, walk_no_nested
 from ..poly import Poly
 from .c12 import tag_rule
 from .c14 import split_rules
@@ -529,10 +529,9 @@ def run(model: Model, rep, tier: str) -> None:
              skip=lambda f: f.name in ("_uniform", "refined")
              or f.name.startswith("_adaptive"))
     split_rules(model, rep, "C18-R2", "C18-R2", "C18-R2")
-    _joins(model, rep)
-    _restrict(model, rep)
-    _transform_values(model, rep)
-    _transformations(model, rep)
+    staged(lambda: _joins(model, rep), lambda: _restrict(model, rep),
+           lambda: _transform_values(model, rep),
+           lambda: _transformations(model, rep))
     rep.require_min("C18-R1", 8)
     rep.require_min("C18-R2", 9)
     rep.require_min("C18-R3", 5)
